@@ -402,6 +402,40 @@ func c11(c *core.Ctx) {
 			// the unary handler may still bail out before dispatch when the body cannot be read (client went away)
 			okMin := mnAcc == 1 || (!hc.Stream && mnAcc == 0)
 			c.Check(ok && mx == 1 && len(sites) > 0 && okMin, key, hc.Fn.Pos(), fmt.Sprintf("handler invocations per request: max %d; accepting path min %d", mx, mnAcc), fmt.Sprintf("handler invocation count per request is not 'at most one, and one on the accepting path' (max %d, accepting-path min %d)", mx, mnAcc))
+			// an accepted request is dispatched: a path from the last gate to a return that runs no handler passes one
+			// of the bare-status rejections (the module's func(http.ResponseWriter, int) helper) — it is not answered
+			// through the error renderer / trailer as if a handler had failed, with no interceptor ever having seen it
+			isReject := func(in ssa.Instruction) bool {
+				call, ok := in.(*ssa.Call)
+				if !ok {
+					return false
+				}
+				h := call.Call.StaticCallee()
+				return h != nil && core.PkgIs(h, "httpgrpc") && len(call.Call.Args) == 2 && core.TypeStr(call.Call.Args[0].Type()) == "net/http.ResponseWriter" && core.TypeStr(call.Call.Args[1].Type()) == "int"
+			}
+			skipped := token.NoPos
+			for _, ef := range core.EdgeFactsOf(hc.Fn) {
+				f := ef.Fact
+				if f.Op == token.EQL && core.IsNilConst(f.Y) && core.OriginIs(f.X, func(o ssa.Value) bool {
+					cr, idx, ok := core.CallResult(o)
+					if !ok {
+						return false
+					}
+					ei, is := headerDecoderCall(cr)
+					return is && idx == ei
+				}) {
+					reach := core.Walk(core.Loc{B: ef.B.Succs[ef.Succ], Idx: 0}, func(x ssa.Instruction) bool { return isH(x) || isReject(x) }, nil)
+					for _, r := range core.Returns(hc.Fn) {
+						if reach[r] {
+							skipped = r.Pos()
+							if !skipped.IsValid() {
+								skipped = hc.Fn.Pos()
+							}
+						}
+					}
+				}
+			}
+			c.Check(skipped == token.NoPos, key+":accepted-means-dispatched", hc.Fn.Pos(), "after the last gate every path to a return runs the handler or passes a bare-status rejection", "a request that passed every gate can be answered without the handler (and so the interceptors) having been run and without a rejection status — e.g. a shortcut for a context that is already done, answered through the error renderer as if the handler had failed: interceptors never see the RPC")
 		}
 		c.EndRule()
 	}
